@@ -13,6 +13,11 @@ def rapid(run, quick, thorough, shards=16, **kw):
     d.update(kw)
     return d
 
+def fuzz(run, secs_thorough="60s", **kw):
+    d = {"run": "^%s$" % run, "name": run, "kind": "fuzz", "thorough_only": True, "fuzztime_thorough": secs_thorough, "timeout_thorough": 900}
+    d.update(kw)
+    return d
+
 def enum(run, **kw):
     d = {"run": "^%s$" % run, "name": run, "kind": "enum"}
     d.update(kw)
@@ -25,5 +30,7 @@ PROPS = {
     "C04": {"jobs": [rapid("TestC04", 1500, 10000)]},
     "C05": {"jobs": [rapid("TestC05", 1500, 15000)]},
     "C07": {"jobs": [rapid("TestC07", 20000, 60000), enum("TestC07Bounded")]},
+    "C09": {"jobs": [rapid("TestC09", 3000, 10000), enum("TestC09Truncations"), enum("TestC09TCPOptions")] +
+            [fuzz("FuzzC09" + v) for v in ("icmp4", "icmp6", "udp4", "udp6", "tcp", "tcpparis", "sack", "Parser")]},
     "C06": {"jobs": [rapid("TestC06", 1200, 8000), enum("TestC06AllTTLs")]},
 }
